@@ -169,7 +169,7 @@ class Blake2(Blake):
                 nextblk = next(g)
             except StopIteration:
                 # set f0 finalization flag (blk is last)
-                self.f[0]= -1
+                if padding: self.f[0]= -1
                 nextblk = None
             # input words are now in little-endian:
             yield Bits(blk,bitorder=1).split(self.wsize)
